@@ -225,7 +225,13 @@ def build(tier, seed):
         queries.append(Query("C04/reader-twice/unique/rows=%d" % nrows, "rowflow-twice", mk,
                              "fields ch+t01 with IsUnique, %d rows (key a/b/c, value len<=2), header 0..1, the same Reader "
                              "iterated twice" % nrows, budget_s=600, per_path_timeout=60, replay=rp, functions=FUNCS, stubs=STUBS))
-    return dict(queries=queries,
+    def native():
+        # a row whose key tuple differs from every earlier one passes the IsUnique row check (concrete composite keys
+        # that collide under joining / rendering / normalisation; exploration, see props/c05.py)
+        from props.c05 import native_key_collisions
+        return native_key_collisions("row-verdict")
+
+    return dict(queries=queries, native=native,
                 assumptions=["rows reach validio exactly as the container reader yields them (S-ROWS)",
                              "per-field verdicts of the pool fields (Text with length, Choice) are the simple predicates "
                              "of vlib/rowflow.FIELD_POOL; per-type semantics is C02/C03's subject"],
